@@ -78,6 +78,18 @@ pub fn gen(rng: &mut ChaCha20Rng, n: usize, thorough: bool) -> Vec<Case> {
             out.push(rename(c01::mk("tx", &ref_tx(&tx), tags, true)));
         }
     }
+    // targeted: blocks whose transaction count sits at a varint threshold (the big ones only in the thorough tier: ~1.4 MB of hex each)
+    let counts: &[usize] = if thorough { &[0xfc, 0xfd, 0xfffe, 0xffff, 0x10000] } else { &[0xfc, 0xfd] };
+    for &c in counts {
+        let mut tags = vec![format!("src:targeted-block-txcount{:x}", c)];
+        let empty = Transaction { version: 2, lock_time: elements::LockTime::ZERO, input: vec![], output: vec![] };
+        let b = serialize(&Block { header: c01::rheader(rng, &mut tags), txdata: vec![empty; c] });
+        let mut case = rename(c01::mk("block", &b, tags, true));
+        if b.len() > 100_000 { // skip the curve-point window scan for the huge all-trivial blocks
+            case.text = format!("C12 block {} - {}", c01::caps(), hex(&b));
+        }
+        out.push(case);
+    }
     for k in 0..n {
         let mut tags = vec!["src:structured".to_string()];
         if k % 8 == 7 {
